@@ -97,6 +97,46 @@ theorem coordinates_rejected (gt : String) (finite : α → Bool) (dbl : Bool) (
     have hn' : (castG cast gd).length ≤ k.toNat - 1 := by omega
     simp [getCoordinates, coordIndex_spec, h1, h0, hr, hf, List.getElem?_eq_none hn, List.getElem?_eq_none hn']
 
+/-- **Call order does not matter.**  On a parsed group (whose cache `_graphic_data` is filled by the first
+decoding) any history of whole-group and per-annotation accesses — per-annotation first, whole first,
+outside numbers in between — gives, access by access, the answer a freshly parsed object gives to that
+single access: the whole stored input, its `k`-th annotation, ValueError for `k < 1`, IndexError for `k > n`. -/
+theorem history_independent (gt : String) (finite : α → Bool) (dbl : Bool) (cast : α → α) (gd : GData α) (c : Nat)
+    (v : Valid gt finite cast gd c) (g : Group α) (hg : construct gt finite dbl cast gd = .ok g) (accs : List Access) :
+    runHistory (parse g) (ctOf c) accs = accs.map (fun a => (accessS (parse g) (ctOf c) a).1) ∧
+    (accessS (parse g) (ctOf c) .whole).1 = .ok (.whole (castG cast gd)) ∧
+    (∀ (k : Nat) (hk : k < gd.length), (accessS (parse g) (ctOf c) (.nth ((k : Int) + 1))).1 =
+      .ok (.nth ((castG cast gd)[k]'(by simpa [castG] using hk)))) ∧
+    (∀ k : Int, k < 1 → (accessS (parse g) (ctOf c) (.nth k)).1 = .error .value) ∧
+    (∀ k : Int, (gd.length : Int) < k → (accessS (parse g) (ctOf c) (.nth k)).1 = .error .index) := by
+  have hdec : decode gt (expectedEnc gt dbl cast gd c) (ctOf c) = .ok (castG cast gd) :=
+    decode_expected gt finite dbl cast gd c v
+  simp only [construct, encode_valid gt finite dbl cast gd c v] at hg
+  have hp : parse g = { gtype := gt, enc := expectedEnc gt dbl cast gd c, cache := none } := by cases hg; rfl
+  rw [hp]
+  have hS : getGraphicDataS ({ gtype := gt, enc := expectedEnc gt dbl cast gd c, cache := none } : Group α) (ctOf c) =
+      .ok (castG cast gd, { gtype := gt, enc := expectedEnc gt dbl cast gd c, cache := some (ctOf c, castG cast gd) }) := by
+    simp [getGraphicDataS, hdec]
+  have hlen : (castG cast gd).length = gd.length := by simp [castG]
+  refine ⟨?_, ?_, ?_, ?_, ?_⟩
+  · exact runHistory_independent gt _ (ctOf c) (castG cast gd) hdec accs _ ⟨rfl, rfl, Or.inl rfl⟩
+  · simp [accessS, hS]
+  · intro k hk
+    have hci : coordIndex ((k : Int) + 1) = .ok (k : Int) := by
+      rw [coordIndex_spec]
+      have : ¬ ((k : Int) + 1 < 1) := by omega
+      simp [this]
+    have hk' : k < (castG cast gd).length := by omega
+    have : ¬ ((k : Int) < 0) := by omega
+    simp [accessS, hci, hS, this, List.getElem?_eq_getElem hk']
+  · intro k hk
+    simp [accessS, coordIndex_spec, hk]
+  · intro k hk
+    have h1 : ¬ (k < 1) := by omega
+    have h0 : ¬ (k - 1 < 0) := by omega
+    have hn : (castG cast gd).length ≤ k.toNat - 1 := by omega
+    simp [accessS, coordIndex_spec, h1, h0, hS, List.getElem?_eq_none hn]
+
 /-! ## stored attributes (L1) -/
 
 /-- What is written: all coordinate values row by row (two columns when z is shared), the shared z in
